@@ -13,6 +13,9 @@ PINNED = [["start_a", "0", "enter"], ["start_p"] + ["9"] * 20 + ["enter"],
           ["start_p", "sp", "c", "h", "r", "h", "l", "c", "j", "g", "k", "sp", "h", "h", "h"],
           ["start_p", "k", "k", "k", "k", "k", "g", "k", "sp", "k", "k"], ["start_a", "j", "j", "j", "j", "j", "j", "sp", "r", "h", "c", "b"],
           ["start_a", "j", "j", "j", "sp", "k", "k", "g", "1", "dot", "k"],
+          # numbers far beyond any integer type, congruent to a valid link number modulo 2^64 or 2^32: they name no link
+          ["start_a", "j"] + list("18446744073709551617") + ["dot", "j"], ["start_p", "k"] + list("18446744073709551618") + ["enter", "k"],
+          ["start_a", "j"] + list("4294967297") + ["dot"], ["start_a", "j"] + list("36893488147419103233") + ["enter"],
           # a collection opened by its address, walked to its end and back
           ["start_p", "colon", "open_c", "enter", "j", "j", "j", "j", "j", "sp", "h", "k", "k", "k", "k", "k"], ["start_a", "colon", "open_c", "enter", "j", "sp", "h", "g", "a"],
           # 'g' on pages that list items (no centre), after moving
@@ -50,3 +53,23 @@ def ui_events(ctx, res, frames=True, world=None):
     res.extra["key_sessions_from_tlc_" + world] = len(sessions)
     _cache[key] = evs
     return evs
+
+
+def number_sessions(ctx, res):
+    """Key sessions about typed link numbers only (C12): pinned ones plus TLC sessions that type digits; judged by T_UI."""
+    out = []
+    bad_all = []
+    for world in ("w1", "w2"):
+        g = ctx.tlc("MC_UI", "Gen_UI.cfg", simulate="num=%d" % (150 if ctx.quick else 1500), depth=14, workers=1, consts={"World": '"%s"' % world})
+        digits = set("0123456789")
+        sessions = [s for s in g.json_lines("GEN") if any(t in digits for t in s) and ("dot" in s or "enter" in s)]
+        pinned = [s for s in PINNED if any(t in digits for t in s)]
+        evs, rc, txt = run_harness(ctx, "ui", "TestVerifKeys", {"sessions": pinned + sessions, "wild": 0, "frames": False, "frame_every": 1},
+                                   timeout=3000, allow_fail=True, env={"VERIF_WORLD": world}, name="numbers-" + world)
+        if rc != 0:
+            raise vlib.Inconclusive("ui harness failed:\n" + txt[-2500:])
+        part = [dict(e, world=world) for e in evs if e["ev"] in ("reset", "key", "hookexit")]
+        bad, r = vlib.judge(ctx, "T_UI", "T_UI.cfg", [{k: v for k, v in e.items() if k != "world"} for e in part], name="T_UI_numbers_" + world, consts={"World": '"%s"' % world})
+        bad_all += [dict(b, line=b["line"] + len(out)) for b in bad]
+        out += part
+    return out, bad_all
